@@ -5,53 +5,94 @@
     patterns, alone or combined: lines rewritten == permitted sites and {change.lineNumber} == lines rewritten.
 
     Proved here, for all inputs, about the framework logic every conforming transformer goes through:
-      - the decision rule of filter_by_path_includes_or_excludes / match_line ([C13_line_filter_table]);
+      - the decision rule of filter_by_path_includes_or_excludes / match_line: what every variant does
+        ([C13_line_filter_common]) and whether it is what the property demands ([C13_line_filter_table], indexed by
+        Tables.line_filter_rule; the rule as written is refuted for combined lists: [C13_refuted_exclude_shadows_include]);
       - which lines a pattern list yields for a file in `_process_file`, for the variant the source implements
         ([C13_pattern_reaches_file], indexed by Tables.line_pattern_path_form; the pinned variant is refuted by witness);
-      - the change line is the start line of the filtered position ([C13_change_line_is_node_start]);
-      - a transformer that sends its candidates through the filter rewrites exactly the permitted single-line sites
-        and reports exactly their lines ([C13_excluded_never_reported]).
+      - the default transformer path of Model/Location.v (the model that is run against the real LibcstResultTransformer
+        by the C18 join correspondence) hands over exactly the single-line Call/Assign/ClassDef nodes on permitted lines
+        and reports one change per node at its start line ([C13_excluded_never_reported], same index).
     NOT a theorem (it is a fact about ~65 transformer classes, each deciding on its own whether to call the filter):
     that codemod K does go through the filter. That is the per-codemod conformance search of harness/c13.py; the
     transformers found to skip the filter are listed in findings/C13.json. *)
 From Coq Require Import Strings.String.
 From CM Require Import Base.GlobLit Base.Types_Glob Model.Glob Model.LineFilter Spec.GlobSpec Spec.LineFilterSpec
      Proofs.GlobFacts Proofs.LineFilterFacts Generated.Tables.
+From CM Require Import Base.Types_Location Proofs.LocationFacts.
+From CM Require Model.Location.
+Import Location(node, mknode, nid, nkind, nspan, span, mkspan, mkpos, pline, pcol, sstart, send, ltab, mkltab, lfr, line_filter,
+  pos_of_span, on_result_found_nodes, reported_changes, ch_line, default_kind, FDefault, KCall).
 
-(** ** The decision table *)
-Theorem C13_line_filter_table : forall ex inc p,
+(** ** The decision table.  What every variant of the rule does ... *)
+Theorem C13_line_filter_common : forall v ex inc p,
   (* an excluded line is never selected *)
-  (forall l, In l ex -> match_line p l = true -> filter_by_path_includes_or_excludes ex inc p = false)
+  (forall l, In l ex -> match_line p l = true -> filter_by_path_includes_or_excludes v ex inc p = false)
   (* no exclusions, some inclusions, the node on none of them: not selected *)
   /\ (ex = [] -> inc <> [] -> (forall l, In l inc -> match_line p l = false) ->
-      filter_by_path_includes_or_excludes ex inc p = false)
-  (* exclusions given and the node on none of them: selected, whatever the inclusion list says (exclude shadows include) *)
-  /\ (ex <> [] -> (forall l, In l ex -> match_line p l = false) -> filter_by_path_includes_or_excludes ex inc p = true)
+      filter_by_path_includes_or_excludes v ex inc p = false)
   (* no exclusions, the node on an included line: selected *)
-  /\ (ex = [] -> forall l, In l inc -> match_line p l = true -> filter_by_path_includes_or_excludes ex inc p = true)
+  /\ (ex = [] -> forall l, In l inc -> match_line p l = true -> filter_by_path_includes_or_excludes v ex inc p = true)
   (* no line lists at all: selected *)
-  /\ filter_by_path_includes_or_excludes [] [] p = true
+  /\ filter_by_path_includes_or_excludes v [] [] p = true
   (* a node spanning several lines matches no line *)
-  /\ (start_line p <> end_line p -> forall l, match_line p l = false)
-  (* in one formula, for a node confined to line n *)
-  /\ (forall n, single_line p n -> (filter_by_path_includes_or_excludes ex inc p = true <-> Permitted ex inc n)).
+  /\ (start_line p <> end_line p -> forall l, match_line p l = false).
 Proof.
-  intros ex inc p. split; [| split; [| split; [| split; [| split; [| split]]]]].
-  - intros l Hin Hm. unfold filter_by_path_includes_or_excludes. destruct ex as [| e ex]; [destruct Hin |].
-    apply Bool.negb_false_iff. apply existsb_exists. exists l. split; assumption.
-  - intros -> Hinc Hall. unfold filter_by_path_includes_or_excludes. destruct inc as [| i inc]; [congruence |].
-    destruct (existsb (match_line p) (i :: inc)) eqn:E; [| reflexivity].
-    apply existsb_exists in E. destruct E as [l [Hl Hm]]. rewrite (Hall l Hl) in Hm. discriminate.
-  - intros Hex Hall. unfold filter_by_path_includes_or_excludes. destruct ex as [| e ex]; [congruence |].
-    apply Bool.negb_true_iff. destruct (existsb (match_line p) (e :: ex)) eqn:E; [| reflexivity].
-    apply existsb_exists in E. destruct E as [l [Hl Hm]]. rewrite (Hall l Hl) in Hm. discriminate.
-  - intros -> l Hin Hm. unfold filter_by_path_includes_or_excludes. destruct inc as [| i inc]; [destruct Hin |].
-    apply existsb_exists. exists l. split; assumption.
-  - reflexivity.
+  intros v ex inc p. split; [| split; [| split; [| split]]].
+  - intros l Hin Hm. assert (E : existsb (match_line p) ex = true) by (apply existsb_exists; exists l; split; assumption).
+    destruct ex as [| e ex]; [destruct Hin |]. destruct v; unfold filter_by_path_includes_or_excludes; rewrite E; reflexivity.
+  - intros -> Hinc Hall. destruct inc as [| i inc]; [congruence |].
+    assert (E : existsb (match_line p) (i :: inc) = false).
+    { destruct (existsb (match_line p) (i :: inc)) eqn:E; [| reflexivity].
+      apply existsb_exists in E. destruct E as [l [Hl Hm]]. rewrite (Hall l Hl) in Hm. discriminate. }
+    destruct v; unfold filter_by_path_includes_or_excludes; exact E.
+  - intros -> l Hin Hm. destruct inc as [| i inc]; [destruct Hin |].
+    assert (E : existsb (match_line p) (i :: inc) = true) by (apply existsb_exists; exists l; split; assumption).
+    destruct v; unfold filter_by_path_includes_or_excludes; exact E.
+  - destruct v; reflexivity.
   - apply match_line_multiline.
-  - intros n Hs. rewrite (filter_single p n ex inc Hs). apply permittedb_Permitted.
 Qed.
+Print Assumptions C13_line_filter_common.
+
+(** ... and whether it decides what the property demands: for a node confined to line n, selected <-> n is not excluded
+    and (no line of the file is included or n is).  Indexed by the rule the source implements: the repaired rule does;
+    the rule as written does only while one of the two lists is empty, and is refuted when they are combined. *)
+Definition C13_line_filter_statement (v : lf_rule) : Prop :=
+  match v with
+  | ExcludeThenInclude =>
+      forall ex inc p n, single_line p n -> (filter_by_path_includes_or_excludes v ex inc p = true <-> Permitted ex inc n)
+  | ExcludeShadowsInclude =>
+      (forall ex inc p n, ex = [] \/ inc = [] -> single_line p n ->
+         (filter_by_path_includes_or_excludes v ex inc p = true <-> Permitted ex inc n))
+      /\ (exists ex inc p n, single_line p n /\ filter_by_path_includes_or_excludes v ex inc p = true /\ ~ Permitted ex inc n)
+  end.
+(** the witness: `--path-include a.py:2 --path-exclude a.py:6`, a construct on line 4 *)
+Definition w_line4 : pos := ((4, 0), (4, 9))%Z.
+Lemma C13_line_filter_all v : C13_line_filter_statement v.
+Proof.
+  destruct v; cbv beta iota delta [C13_line_filter_statement].
+  - split.
+    + intros ex inc p n Hor Hs. rewrite (filter_single_shadow p n ex inc Hs), (shadow_permittedb_alone ex inc n Hor).
+      apply permittedb_Permitted.
+    + exists [6%Z], [2%Z], w_line4, 4%Z. split; [split; reflexivity |]. split; [vm_compute; reflexivity |].
+      intros [_ [H | [H | []]]]; discriminate.
+  - intros ex inc p n Hs. rewrite (filter_single p n ex inc Hs). apply permittedb_Permitted.
+Qed.
+Theorem C13_line_filter_table : C13_line_filter_statement line_filter_rule.
+Proof. exact (C13_line_filter_all line_filter_rule). Qed.
 Print Assumptions C13_line_filter_table.
+
+(** The code as written (whatever the tree now holds): with an exclusion list given, a line that is not included is
+    still selected. *)
+Theorem C13_refuted_exclude_shadows_include :
+  exists ex inc p n, single_line p n /\ ~ In n ex /\ inc <> [] /\ ~ In n inc /\
+                     filter_by_path_includes_or_excludes ExcludeShadowsInclude ex inc p = true.
+Proof.
+  exists [6%Z], [2%Z], w_line4, 4%Z. split; [split; reflexivity |].
+  split; [intros [H | []]; discriminate |]. split; [discriminate |]. split; [intros [H | []]; discriminate |].
+  vm_compute. reflexivity.
+Qed.
+Print Assumptions C13_refuted_exclude_shadows_include.
 
 (** ** `path:line` patterns reach the file when written relative to the target *)
 Definition w_as_passed : str := lit "/t/proj/b.py".
@@ -102,40 +143,56 @@ Proof.
 Qed.
 Print Assumptions C13_no_spurious_line.
 
-(** ** The change entry names the start line of the position that was filtered *)
-Theorem C13_change_line_is_node_start : forall p n, single_line p n -> report_change p = n.
-Proof. intros p n [Hs _]. exact Hs. Qed.
-Print Assumptions C13_change_line_is_node_start.
-
-(** ** A transformer that filters its candidates rewrites exactly the permitted single-line sites and reports their lines *)
-Theorem C13_excluded_never_reported : forall ex inc cands,
-  (forall p, In p cands -> start_line p = end_line p) ->
-  (* every reported line is a permitted line carrying a candidate *)
-  (forall n, In n (reported ex inc cands) <-> Permitted ex inc n /\ exists p, In p cands /\ single_line p n)
-  (* a candidate is rewritten iff its line is permitted *)
-  /\ (forall p, In p cands -> (In p (rewritten ex inc cands) <-> Permitted ex inc (start_line p))).
+(** ** A transformer on the default leave_Call/leave_Assign/leave_ClassDef path (Model/Location.v: the functions that are in
+    correspondence with the real LibcstResultTransformer, C18 join_model_ok; `_new_or_updated_node` calls
+    `node_is_selected`, shape transformer_join) without detector results: the nodes it hands to on_result_found are exactly
+    the Call/Assign/ClassDef nodes on permitted lines, and it reports one change per such node, at the node's start line. *)
+Definition one_line (n : node) : Prop := pline (sstart (nspan n)) = pline (send (nspan n)).
+Definition C13_transformer_statement (v : lf_rule) : Prop :=
+  forall T, lfr T = v -> forall a ex inc nodes, (forall n, In n nodes -> one_line n) ->
+    (match v with ExcludeThenInclude => True | ExcludeShadowsInclude => ex = [] \/ inc = [] end) ->
+    (forall n, In n (on_result_found_nodes T FDefault None ex inc nodes) <->
+               In n nodes /\ default_kind (nkind n) = true /\ Permitted ex inc (pline (sstart (nspan n))))
+    /\ map ch_line (reported_changes T a FDefault None ex inc nodes) =
+       map (fun n => pline (sstart (nspan n))) (on_result_found_nodes T FDefault None ex inc nodes).
+Lemma C13_transformer_all v : C13_transformer_statement v.
 Proof.
-  intros ex inc cands Hsingle. split.
-  - intros n. unfold reported, rewritten. rewrite in_map_iff. split.
-    + intros [p [Hr Hin]]. apply filter_In in Hin. destruct Hin as [Hin Hf].
-      assert (Hs : single_line p n) by (split; [exact Hr | rewrite <- (Hsingle p Hin); exact Hr]).
-      split; [| exists p; split; assumption].
-      apply permittedb_Permitted. rewrite <- (filter_single p n ex inc Hs). exact Hf.
-    + intros [Hperm [p [Hin Hs]]]. exists p. split; [apply Hs |]. apply filter_In. split; [exact Hin |].
-      rewrite (filter_single p n ex inc Hs). apply permittedb_Permitted. exact Hperm.
-  - intros p Hin. unfold rewritten. rewrite filter_In.
-    assert (Hs : single_line p (start_line p)) by (split; [reflexivity | symmetry; apply Hsingle; exact Hin]).
-    rewrite (filter_single p _ ex inc Hs), permittedb_Permitted. tauto.
+  intros T HT a ex inc nodes Hone Hguard. split; [| apply changes_of_join].
+  intros n. unfold on_result_found_nodes. rewrite filter_In, Bool.andb_true_iff, select_no_detector.
+  assert (Hiff : In n nodes -> (line_filter T ex inc (nspan n) = true <-> Permitted ex inc (pline (sstart (nspan n))))).
+  { intros Hin. unfold line_filter. rewrite HT.
+    assert (Hs : single_line (pos_of_span (nspan n)) (pline (sstart (nspan n)))).
+    { split; [reflexivity |]. unfold end_line, pos_of_span. simpl. symmetry. apply (Hone n Hin). }
+    destruct v.
+    - rewrite (filter_single_shadow _ _ ex inc Hs), (shadow_permittedb_alone ex inc _ Hguard). apply permittedb_Permitted.
+    - rewrite (filter_single _ _ ex inc Hs). apply permittedb_Permitted. }
+  split.
+  - intros [Hin [Hk Hf]]. split; [exact Hin |]. split; [exact Hk |]. apply (Hiff Hin). exact Hf.
+  - intros [Hin [Hk Hp]]. split; [exact Hin |]. split; [exact Hk |]. apply (Hiff Hin). exact Hp.
 Qed.
+Theorem C13_excluded_never_reported : C13_transformer_statement line_filter_rule.
+Proof. exact (C13_transformer_all line_filter_rule). Qed.
 Print Assumptions C13_excluded_never_reported.
 
 (** ** Non-vacuity and the documented corner: a node spanning lines 2-3 is not excluded by `:2` and is reported at 2 *)
 Example C13_example_table :
   let cands := [((2, 0), (2, 9)); ((4, 0), (4, 9)); ((6, 4), (6, 20))]%Z in
-  reported [4%Z] [] cands = [2; 6]%Z /\ reported [] [4%Z] cands = [4%Z] /\ reported [4%Z] [4%Z] cands = [2; 6]%Z
-  /\ reported [] [] cands = [2; 4; 6]%Z
-  /\ reported [2%Z] [] [((2, 0), (3, 5))]%Z = [2%Z].
-Proof. vm_compute. repeat split; reflexivity. Qed.
+  forall v,
+  reported v [4%Z] [] cands = [2; 6]%Z /\ reported v [] [4%Z] cands = [4%Z] /\ reported v [] [] cands = [2; 4; 6]%Z
+  /\ reported v [2%Z] [] [((2, 0), (3, 5))]%Z = [2%Z]
+  (* the combination: include line 2, exclude line 6 *)
+  /\ reported ExcludeThenInclude [6%Z] [2%Z] cands = [2%Z] /\ reported ExcludeShadowsInclude [6%Z] [2%Z] cands = [2; 4]%Z.
+Proof. intros cands v. destruct v; vm_compute; repeat split; reflexivity. Qed.
+
+(** the transformer statement is not vacuous: three one-line calls, include 2, exclude 6, repaired rule *)
+Example C13_example_transformer :
+  let T := mkltab [-1; 0]%Z [-1; 0]%Z (-1, 1)%Z ExcludeThenInclude in
+  let nodes := [mknode 1 KCall (mkspan (mkpos 2 5) (mkpos 2 16)); mknode 2 KCall (mkspan (mkpos 4 5) (mkpos 4 16));
+                mknode 3 KCall (mkspan (mkpos 6 5) (mkpos 6 16))]%Z in
+  (forall n, In n nodes -> one_line n) /\
+  map nid (on_result_found_nodes T FDefault None [6]%Z [2]%Z nodes) = [1%N] /\
+  map ch_line (reported_changes T ByLineRange FDefault None [6]%Z [2]%Z nodes) = [2]%Z.
+Proof. split; [intros n [<- | [<- | [<- | []]]]; reflexivity | split; vm_compute; reflexivity]. Qed.
 
 Example C13_example_patterns :
   process_file_lines Both (lit "/t/proj/sub/b.py") (Some (lit "sub/b.py"))
